@@ -201,6 +201,16 @@ func m_AddCert(p *x509.CertPool, c *x509.Certificate) {
 	g.certs = append(g.certs, c)
 }
 
+// Clone: an independent pool with the same certificates.
+//
+//vp:model (*crypto/x509.CertPool).Clone
+func m_PoolClone(p *x509.CertPool) *x509.CertPool {
+	g := vp.GhostGet(p, "pool").(*poolGhost)
+	c := &x509.CertPool{}
+	vp.GhostSet(c, "pool", &poolGhost{certs: append([]*x509.Certificate(nil), g.certs...)})
+	return c
+}
+
 // Equal reports whether two pools hold the same certificates.
 //
 //vp:model (*crypto/x509.CertPool).Equal
